@@ -222,6 +222,11 @@ pub fn check_server_sdl(files: &[String], sdl: &str, route: &str, replay: &Value
     out
 }
 
+thread_local! {
+    /// number of CLI runs whose `generate` succeeded (so that the server module was really inspected)
+    pub static CLI_GENERATED: std::cell::Cell<u64> = const { std::cell::Cell::new(0) };
+}
+
 const OP_FOR_SCHEMA: &str = "query Q { __typename }\n";
 
 pub fn check_server_project(ctx: &Ctx, case: u64, schema_files: &[String], via_cli: bool) -> Vec<Violation> {
@@ -231,10 +236,30 @@ pub fn check_server_project(ctx: &Ctx, case: u64, schema_files: &[String], via_c
         let dir = cli::scratch_dir(&ctx.out, "c16", case);
         let mut files: Vec<(String, String)> = schema_files.iter().enumerate().map(|(i, t)| (format!("schema/s{i}.graphql"), t.clone())).collect();
         files.push(("op.graphql".into(), OP_FOR_SCHEMA.into()));
-        files.push(("graphql.config.yaml".into(), "schema: ./schema/*.graphql\ndocuments: ./op.graphql\nextensions:\n  nitrogql:\n    generate:\n      schemaOutput: ./out/schema.d.ts\n      serverGraphqlOutput: ./out/server.ts\n".into()));
+        // every custom scalar gets a configured type unless the schema types it through @nitrogql_ts_type (generate refuses otherwise)
+        let mut scalar_cfg = String::new();
+        {
+            let mut all = TsDoc::default();
+            for f in schema_files {
+                if let Ok(d) = refparse::parse_ts(f) {
+                    all.defs.extend(d.defs);
+                }
+            }
+            let merged = merge_extensions(&all);
+            for d in &merged.defs {
+                if let TsDef::Type(t) = d {
+                    if t.kind == TKind::Scalar && !BUILTIN_SCALARS.contains(&t.name.s.as_str()) && !t.dirs.iter().any(|x| x.name.s == "nitrogql_ts_type") {
+                        scalar_cfg.push_str(&format!("          {}: string\n", t.name.s));
+                    }
+                }
+            }
+        }
+        let scalar_cfg = if scalar_cfg.is_empty() { String::new() } else { format!("      type:\n        scalarTypes:\n{scalar_cfg}") };
+        files.push(("graphql.config.yaml".into(), format!("schema: ./schema/*.graphql\ndocuments: ./op.graphql\nextensions:\n  nitrogql:\n    generate:\n      schemaOutput: ./out/schema.d.ts\n      serverGraphqlOutput: ./out/server.ts\n{scalar_cfg}")));
         if cli::write_project(&dir, &files).is_ok() {
             let r = cli::run_cli(&ctx.cli, &dir, &["generate", "--output-format", "json"], Duration::from_secs(60));
             if r.status == Some(0) {
+                CLI_GENERATED.with(|c| c.set(c.get() + 1));
                 match std::fs::read_to_string(dir.join("out/server.ts")) {
                     Err(_) => out.push(Violation { sig: "C16|server|cli|file-missing".into(), detail: "generate succeeded but out/server.ts does not exist".into(), replay: replay.clone() }),
                     Ok(module) => match read_schema_module(&module) {
@@ -286,7 +311,7 @@ pub fn run(ctx: &Ctx, rep: &mut Report) {
     }
     // part B: server schema of valid schemas with hostile descriptions / default strings
     let n = ctx.budget(24_000, 400_000);
-    let cli_every = 40;
+    let cli_every = 4;
     for case in 0..n {
         let mut rng = ctx.rng("server", case);
         crate::gen_syntax::set_allow_quotes(rng.chance(1, 8));
@@ -295,7 +320,21 @@ pub fn run(ctx: &Ctx, rep: &mut Report) {
         so.hostile_text = rng.chance(2, 3);
         so.block_strings = rng.coin();
         let (doc, _) = gen_valid_schema(&mut rng, &so);
-        let doc = if rng.coin() { split_extensions(&doc, &mut rng) } else { doc };
+        let mut doc = if rng.coin() { split_extensions(&doc, &mut rng) } else { doc };
+        // scalars typed through the nitrogql-only directive (which the server schema must not contain), also on built-in
+        // scalars through `extend scalar` as the graphql-scalars plugin does
+        if rng.chance(1, 2) {
+            let customs: Vec<String> = doc.defs.iter().filter_map(|d| match d { TsDef::Type(t) if !t.ext && t.kind == TKind::Scalar => Some(t.name.s.clone()), _ => None }).collect();
+            for c in customs {
+                if rng.coin() {
+                    crate::gen_schema::add_ts_type_directive(&mut doc, &c, &crate::gen_schema::four_way(rng.s(&["string", "Date||string", "a||b||c||d"])), &mut rng);
+                }
+            }
+            if rng.chance(1, 3) {
+                let b = rng.s(BUILTIN_SCALARS).to_string();
+                crate::gen_schema::add_ts_type_directive(&mut doc, &b, &crate::gen_schema::four_way("string"), &mut rng);
+            }
+        }
         // 1-3 files
         let nfiles = rng.range(1, 3).min(doc.defs.len());
         let mut files: Vec<TsDoc> = (0..nfiles).map(|_| TsDoc::default()).collect();
@@ -315,6 +354,7 @@ pub fn run(ctx: &Ctx, rep: &mut Report) {
         }
         rep.violations(check_server_project(ctx, case, &texts, via_cli));
     }
+    rep.add("server_modules_read_from_cli_output", CLI_GENERATED.with(|c| c.get()));
 }
 
 pub fn replay(case: &Value, ctx: &Ctx) -> Vec<Violation> {
